@@ -247,6 +247,24 @@ CLAIMED["C04"] = (
     "abstract interpretation of register-map builders to linear forms + interval reasoning with witness enumeration; dependency cones and must-facts on lowering functions (static analysis)",
     "DESIGN.md section 5, C04",
 )
+CLAIMED["C05"] = (
+    "Structural clauses only. Call sites and inserted external declarations of snax_dma_1d/2d_transfer agree in arity with the C "
+    "prototypes read from runtime/include/snax_rt.h; no source-named variable, keyword or runtime parameter is bound to a purely "
+    "destination-derived value (and vice versa; 38 bindings); for every pair of variables differing only in the role token the "
+    "destination-side definitions are the role-swapped images of the source-side ones, per path alternative, with shape spellings "
+    "identified under the established shape equality; every pointer increment, DMA size and DMA stride depends on the element byte "
+    "size; the strided lowering is reached only with equal shapes and element types and the 1-D lowering only for two plain memrefs; "
+    "the loop-nest builder, evaluated abstractly for 0..5 remaining strides over opaque tokens, realises every remaining stride exactly "
+    "once with its own bound, its own source step and its own destination step (as the 2-D repeat dimension or as one loop) and places "
+    "pointer arithmetic before its uses; the stride that seeds dynamic steps in get_step_ops is selected from steps and bounds (F-25, "
+    "fixed). Does not decide the arithmetic of largest_common_contiguous_block, of dynamic steps beyond the seed choice, nor byte-level "
+    "footprints.",
+    "Identifier tokens src/source and dst/dest/destination carry the role (the file's own convention, 38 bindings checked); the "
+    "abstract evaluation is bounded to at most 5 remaining strides; models of ForOp/Block/Region/CallOp/MuliOp/AddiOp are the "
+    "checker's (structure only).",
+    "prototype/arity table agreement, role lint and mirror comparison with flow-sensitive expansion, dependency cones, must-facts, bounded abstract evaluation of builder code over opaque tokens (static analysis)",
+    "DESIGN.md section 5, C05",
+)
 NOT_APPLICABLE = {
     "C02": "address-stream equality is integer arithmetic over runtime strides/bounds; no structural necessary condition carries weight (DESIGN.md section 5, C02)",
 }
